@@ -101,6 +101,17 @@ theorem validation_first_file_clean (cfg : Cfg) (hs : List Hunk) (f : Path) (fs 
 theorem preflight_changes_nothing (id : Bytes) (entry : UInt8) (plan : Plan) (s : St)
     (h : preflightOk s.t plan.rens = false) :
     applyPlanBody { log := none, id := id, entry := entry } plan s = .err .destExists s := by
+  have hp : (preflight s.t [] plan.rens).isSome = true := by
+    cases hp : preflight s.t [] plan.rens with
+    | some o => rfl
+    | none => rw [RenamePhase.preflightOk_of_none _ _ hp] at h; cases h
+  simp [applyPlanBody, logM, logMF, bind, M.bind, pure, M.pure, getTree, hp, Exec.throw]
+
+/-- … and so is ANY refusal of the pre-flight loop, the shared-destination one of repo commit 01297aa included: no call
+    is issued, the state is the initial one -/
+theorem preflight_refusal_changes_nothing (id : Bytes) (entry : UInt8) (plan : Plan) (s : St) (o : Apply.Outcome)
+    (h : preflight s.t [] plan.rens = some o) :
+    applyPlanBody { log := none, id := id, entry := entry } plan s = .err .destExists s := by
   simp [applyPlanBody, logM, logMF, bind, M.bind, pure, M.pure, getTree, h, Exec.throw]
 
 /-- failure_reports_failure_partial: for EVERY fault index k and every I/O errno (other than the two that
